@@ -10,7 +10,7 @@ import hashlib as _hashlib
 
 install_oracle()
 
-FUNCTIONS_ENCODED = ['pgpy.pgp.PGPSignature.hashdata', 'pgpy.pgp.PGPSignature.new', 'pgpy.pgp.PGPKey._sign', 'pgpy.pgp.PGPKey.sign',
+FUNCTIONS_ENCODED = ['pgpy.packet.fields.SubPackets.__copy__', 'pgpy.packet.packets.UserID.parse / __bytearray__', 'pgpy.pgp.PGPSignature.hashdata', 'pgpy.pgp.PGPSignature.new', 'pgpy.pgp.PGPKey._sign', 'pgpy.pgp.PGPKey.sign',
                      'pgpy.pgp.PGPKey.certify', 'pgpy.pgp.PGPKey.revoke', 'pgpy.pgp.PGPKey.revoker', 'pgpy.pgp.PGPKey.bind',
                      'pgpy.pgp.PGPUID.hashdata', 'pgpy.pgp.PGPUID.new', 'pgpy.pgp.PGPKey.hashdata',
                      'pgpy.packet.fields.SubPackets.addnew', 'pgpy.packet.fields.SubPackets.__hashbytearray__',
